@@ -15,18 +15,15 @@ Proof.
   destruct p; simpl; try discriminate; intros E.
   - lia.
   - match goal with |- context [setup ?a ?b ?c] => destruct (setup a b c) as [[acts err] open'] end.
-    destruct err; [destruct initial|]; simpl; lia.
+    destruct err as [[]|]; try destruct initial; simpl; lia.
   - unfold take, is_ready in *. simpl in *. destruct b.
     + destruct w as [|[] r]; try discriminate; simpl; lia.
     + destruct asy as [|e r]; try discriminate; simpl; lia.
     + destruct sg as [|[] r]; try discriminate; simpl; lia.
     + rewrite E. simpl. lia.
     + rewrite E. simpl. lia.
-  - destruct (svc_blocked _ _); simpl; [lia|].
-    destruct (svc_shutdown _ _) as [acts ok]; destruct ok; simpl; lia.
-  - destruct (svc_blocked _ _); simpl.
-    + destruct w as [|x [|y r]]; simpl; lia.
-    + destruct (svc_shutdown _ _) as [acts ok]; simpl. destruct w as [|x [|y r]]; simpl; lia.
+  - destruct (svc_shutdown _ _) as [acts ok]; destruct ok; simpl; lia.
+  - destruct (svc_shutdown _ _) as [acts ok]; simpl. destruct w as [|x [|y r]]; simpl; lia.
 Qed.
 
 Lemma env_step_raises_by_4 o s l : is_run l = false -> mu (fst (step o s l)) <= mu s + 4.
@@ -132,17 +129,10 @@ Lemma closes_no_failed open : existsb is_failed_shut (closes_of open) = false.
 Proof. destruct open; reflexivity. Qed.
 
 Lemma fprefix_no_failed s : existsb is_failed_shut (final_prefix s) = false.
-Proof.
-  unfold final_prefix. rewrite existsb_app. fold (closes_of (st_open s)). rewrite closes_no_failed, orb_false_r.
-  induction (pred (length (st_watch s))); auto.
-Qed.
+Proof. rewrite fprefix_is_closes. apply closes_no_failed. Qed.
 
 Lemma fprefix_no_bringup s : forallb not_bringup (final_prefix s) = true.
-Proof.
-  unfold final_prefix. rewrite forallb_app. fold (closes_of (st_open s)).
-  assert (forallb not_bringup (closes_of (st_open s)) = true) as -> by (destruct (st_open s); reflexivity).
-  rewrite andb_true_r. induction (pred (length (st_watch s))); auto.
-Qed.
+Proof. rewrite fprefix_is_closes. destruct (st_open s); reflexivity. Qed.
 
 (* SL2: once Run has returned nothing is created or started any more *)
 Lemma done_is_final o s l s' a k :
@@ -196,31 +186,25 @@ Proof.
     { intros tail NT NF. rewrite <- app_assoc, af_prefix by apply closes_no_failed.
       rewrite existsb_app, closes_no_failed. cbn [orb]. apply (shape_af _ _ _ _ SH); auto. }
     destruct err as [e|].
-    + destruct initial; inversion ST; subst; (split; [apply B; reflexivity|intros _; eexists; reflexivity]).
+    + destruct initial; destruct e; inversion ST; subst; (split; [apply B; reflexivity|intros _; eexists; reflexivity]).
     + inversion ST; subst. destruct (B [ASetState Running] eq_refl eq_refl) as [B1 B2].
       split; auto. intros H. exfalso. apply (B2 H). reflexivity.
   - unfold take in ST. destruct b;
       repeat match type of ST with context [match ?x with _ => _ end] => destruct x end;
       inversion ST; subst; split; auto; discriminate.
-  - destruct (svc_blocked _ _).
-    + inversion ST; subst. split; auto; discriminate.
-    + destruct (svc_shutdown (live_gen s) (cfg_of o (live_gen s))) as [acts ok] eqn:ESW.
-      assert (acts = fst (svc_shutdown (live_gen s) (cfg_of o (live_gen s)))) as EA by now rewrite ESW.
-      assert (ok = snd (svc_shutdown (live_gen s) (cfg_of o (live_gen s)))) as EO by now rewrite ESW.
-      destruct ok; inversion ST; subst.
-      * split; [apply af_no_bringup; rewrite forallb_app, sweep_no_bringup; reflexivity|].
-        rewrite existsb_app, sweep_ok_no_failed by auto. discriminate.
-      * split; [apply af_no_bringup; rewrite forallb_app, sweep_no_bringup; reflexivity|].
-        intros _. eexists; reflexivity.
-  - destruct (svc_blocked _ _).
-    + inversion ST; subst. split.
-      * apply af_no_bringup. rewrite !forallb_app, fprefix_no_bringup. reflexivity.
-      * rewrite !existsb_app, fprefix_no_failed. discriminate.
-    + destruct (svc_shutdown (live_gen s) (cfg_of o (live_gen s))) as [acts ok] eqn:ESW.
-      assert (acts = fst (svc_shutdown (live_gen s) (cfg_of o (live_gen s)))) as EA by now rewrite ESW.
-      inversion ST; subst. split.
-      * apply af_no_bringup. rewrite !forallb_app, fprefix_no_bringup, sweep_no_bringup. reflexivity.
-      * intros _. eexists; reflexivity.
+  - destruct (svc_shutdown (live_gen s) (cfg_of o (live_gen s))) as [acts ok] eqn:ESW.
+    assert (acts = fst (svc_shutdown (live_gen s) (cfg_of o (live_gen s)))) as EA by now rewrite ESW.
+    assert (ok = snd (svc_shutdown (live_gen s) (cfg_of o (live_gen s)))) as EO by now rewrite ESW.
+    destruct ok; inversion ST; subst.
+    + split; [apply af_no_bringup; rewrite forallb_app, sweep_no_bringup; reflexivity|].
+      rewrite existsb_app, sweep_ok_no_failed by auto. discriminate.
+    + split; [apply af_no_bringup; rewrite forallb_app, sweep_no_bringup; reflexivity|].
+      intros _. eexists; reflexivity.
+  - destruct (svc_shutdown (live_gen s) (cfg_of o (live_gen s))) as [acts ok] eqn:ESW.
+    assert (acts = fst (svc_shutdown (live_gen s) (cfg_of o (live_gen s)))) as EA by now rewrite ESW.
+    inversion ST; subst. split.
+    + apply af_no_bringup. rewrite !forallb_app, fprefix_no_bringup, sweep_no_bringup. reflexivity.
+    + intros _. eexists; reflexivity.
   - inversion ST; subst. split; auto; discriminate.
   - inversion ST; subst. split; auto; discriminate.
 Qed.
@@ -245,7 +229,7 @@ Qed.
 (* ---- Run returns THE ERROR: the one value a failed run returns is an error ---------------------------- *)
 Lemma failed_run_returns_error_l o ls : forall k,
   st_pc (fst (run o init ls)) = PDone k -> k <> DStopped ->
-  exists l1 e l2, snd (run o init ls) = l1 ++ AReturn e :: l2 /\ e <> RNil /\ count is_return (l1 ++ l2) = 0.
+  exists l1 e l2, snd (run o init ls) = l1 ++ AReturn e :: l2 /\ fail_result e = true /\ count is_return (l1 ++ l2) = 0.
 Proof.
   induction ls as [|l ls IH] using rev_ind; intros k EP NK; [discriminate|].
   rewrite run_app in *. destruct (run o init ls) as [s0 log0] eqn:E0. cbn [run] in *.
@@ -268,4 +252,16 @@ Proof.
   destruct (IH k eq_refl NK) as [l1 [e [l2 [-> [NE Z]]]]].
   exists l1, e, (l2 ++ a1). rewrite <- app_assoc. cbn [app]. repeat split; auto.
   rewrite app_assoc, count_app, Z, D3. reflexivity.
+Qed.
+
+(* with the repairs Run is never blocked: the run ends with Run returned *)
+Lemma stop_pending_returns_l o s bs :
+  st_pc s <> PStuck ->
+  st_chan_closed s = true \/ st_ctx_done s = true ->
+  run_enabled o s bs = true ->
+  let s' := fst (run o s (map LRun bs)) in
+  length bs <= mu s /\ ((forall b, enabled s' (LRun b) = false) -> exists k, st_pc s' = PDone k).
+Proof.
+  intros NS ST RE. destruct (stop_pending_ends_run_l o s bs ST RE) as [H1 H2]. cbv zeta. split; auto.
+  intros T. destruct (H2 T) as [K|K]; auto. exfalso. apply (never_stuck_l o (map LRun bs) s NS K).
 Qed.
